@@ -235,10 +235,9 @@ where
 
             let current_span = if self.format.display_current_span || self.format.display_span_list
             {
-                event
-                    .parent()
-                    .and_then(|id| ctx.span(id))
-                    .or_else(|| ctx.lookup_current())
+                // the event's own parent: its explicit parent if it has one, the
+                // current span if it is contextual, and none if it is a root
+                ctx.parent_span()
             } else {
                 None
             };
